@@ -44,7 +44,18 @@ func (f *Or) Call(s *slip.Scope, args slip.List, depth int) (result slip.Object)
 	result = nil
 	d2 := depth + 1
 	for i := range args {
-		if result = slip.EvalArg(s, args, i, d2); result != nil {
+		result = slip.EvalArg(s, args, i, d2)
+		if i < len(args)-1 {
+			// Only the last form passes on all its values, the others are
+			// judged by and return their first value.
+			if vs, ok := result.(slip.Values); ok {
+				result = vs.First()
+				if list, ok2 := result.(slip.List); ok2 && len(list) == 0 {
+					result = nil
+				}
+			}
+		}
+		if result != nil {
 			break
 		}
 	}
